@@ -21,59 +21,8 @@ prohibitively slow in the Lean 4.33 kernel.
 -/
 namespace Scr
 
-abbrev Str := List Char
-
-/-! ### Python values and their printed forms -/
-
-inductive PyVal where
-  | none
-  | bool (b : Bool)
-  | int (i : Int)
-  | str (s : Str)
-  | flt (repr : Str)            -- a float, carried as the text Python prints for it
-  | tuple (l : List Nat)
-  | range (a b : Int)
-deriving Repr, DecidableEq, Inhabited
-
-def digitChar (d : Nat) : Char :=
-  match d with
-  | 0 => '0' | 1 => '1' | 2 => '2' | 3 => '3' | 4 => '4'
-  | 5 => '5' | 6 => '6' | 7 => '7' | 8 => '8' | _ => '9'
-
-def natDigitsAux : Nat → Nat → Str → Str
-  | 0, _, acc => acc
-  | fuel + 1, n, acc =>
-    if n < 10 then digitChar n :: acc else natDigitsAux fuel (n / 10) (digitChar (n % 10) :: acc)
-
-/-- decimal digits of a natural number -/
-def natDigits (n : Nat) : Str := natDigitsAux (n + 1) n []
-
-def intDigits (i : Int) : Str := if i < 0 then '-' :: natDigits i.natAbs else natDigits i.toNat
-
-def joinSep (sep : Str) : List Str → Str
-  | [] => []
-  | [a] => a
-  | a :: b :: r => a ++ sep ++ joinSep sep (b :: r)
-
-/-- Python `repr` of a tuple of non-negative ints: `()`, `(3,)`, `(1, 3)` -/
-def reprTuple : List Nat → Str
-  | [] => ['(', ')']
-  | [a] => '(' :: natDigits a ++ [',', ')']
-  | a :: b :: r => '(' :: joinSep [',', ' '] ((a :: b :: r).map natDigits) ++ [')']
-
-/-- Python `repr` of `range(a, b)` -/
-def reprRange (a b : Int) : Str := chars! "range" ++ ('(' :: (intDigits a ++ [',', ' '] ++ intDigits b) ++ [')'])
-
-/-- `str(v)` = `format(v, "")` -/
-def pyStr : PyVal → Str
-  | .none => chars! "None"
-  | .bool true => chars! "True"
-  | .bool false => chars! "False"
-  | .int i => intDigits i
-  | .str s => s
-  | .flt r => r
-  | .tuple l => reprTuple l
-  | .range a b => reprRange a b
+/-! `Str`, `PyVal`, `pyStr`, `Opts`, `lookup`, `hasSub`, `splitOn`, `setKw`, … live in Gen/DefaultScriptOpts.lean (the generated
+definitions mention them) -/
 
 def padLeft0 (w : Nat) (s : Str) : Str := List.replicate (w - s.length) '0' ++ s
 def padRight0 (w : Nat) (s : Str) : Str := s ++ List.replicate (w - s.length) '0'
@@ -129,14 +78,6 @@ def parseTpl (t : Str) : List Seg :=
    | 0 => pushLit s.acc s.out
    | _ => .bad :: pushLit s.acc s.out).reverse
 
-/-- the option record: field name → value (first binding wins) -/
-abbrev Opts := List (Str × PyVal)
-
-def lookup (o : Opts) (k : Str) : Option PyVal :=
-  match o with
-  | [] => none
-  | (k', v) :: r => if k' = k then some v else lookup r k
-
 /-- text a segment contributes (empty where Python would raise; see `segOk`) -/
 def segText (o : Opts) : Seg → Str
   | .lit s => s
@@ -179,10 +120,6 @@ def fldPart (o : Opts) : List Seg → Str
 
 /-! ### small string helpers -/
 
-def hasSub (pat : Str) : Str → Bool
-  | [] => pat.isEmpty
-  | c :: r => pat.isPrefixOf (c :: r) || hasSub pat r
-
 /-- the text after the first occurrence of `pat` (`[]` if there is none) -/
 def afterSub (pat : Str) : Str → Str
   | [] => []
@@ -192,16 +129,6 @@ def afterSub (pat : Str) : Str → Str
 def beforeSub (pat : Str) : Str → Str
   | [] => []
   | c :: r => if pat.isPrefixOf (c :: r) then [] else c :: beforeSub pat r
-
-def splitOn (sep : Char) (s : Str) : List Str :=
-  let r := s.foldr (fun c (acc : Str × List Str) => if c = sep then ([], acc.1 :: acc.2) else (c :: acc.1, acc.2)) ([], [])
-  r.1 :: r.2
-
-def parseNat? (s : Str) : Option Nat :=
-  if s.isEmpty then none
-  else s.foldl (fun acc c => match acc with
-    | some n => if c.isDigit then some (n * 10 + (c.toNat - 48)) else none
-    | none => none) (some 0)
 
 /-! ### schedulers, modes -/
 
@@ -244,116 +171,106 @@ structure Raw where
   extra : List (Str × PyVal) := []
   -- environment of the call
   home : Str := []
-  condaDefault : Option Str := none
+  condaDefault : PyVal := .bool false   -- `os.environ.get("CONDA_DEFAULT_ENV", False)`
   name : Str := []
   parentDir : Str := []
 deriving Repr, Inhabited
 
-/-- `round(p / w)` for ints (round half to even) -/
-def roundDiv (p w : Int) : Int :=
-  let (p, w) := if w < 0 then (-p, -w) else (p, w)
-  let q := p / w
-  let r := p % w
-  if 2 * r < w then q else if 2 * r > w then q + 1 else if q % 2 = 0 then q else q + 1
-
-def setKw (kw : List (Str × PyVal)) (k : Str) (v : PyVal) : List (Str × PyVal) :=
-  if kw.any (·.1 = k) then kw.map (fun p => if p.1 = k then (k, v) else p) else kw ++ [(k, v)]
-
-def isNone : PyVal → Bool | .none => true | _ => false
-
 /-- `f"{m}G"` if `m` is an int, else `m` itself -/
-def memSpelling : PyVal → PyVal
-  | .int i => .str (intDigits i ++ ['G'])
-  | .bool b => .str (pyStr (.bool b) ++ ['G'])
-  | v => v
-
-/-- `int(x)` where it is applied to an option value -/
-def pyInt : PyVal → Except String PyVal
-  | .int i => .ok (.int i)
-  | .bool b => .ok (.int (if b then 1 else 0))
-  | .str s => match parseNat? s with
-    | some n => .ok (.int n)
-    | none => .error "value"
-  | _ => .error "type"
+def memSpelling (v : PyVal) : PyVal := if Py.isInt v then .str (pyStr v ++ ['G']) else v
 
 def headerPrefix : Sched → Str
   | .slurm => chars! "#SBATCH --" | .pbs => chars! "#PBS -l " | .sge => chars! "#$ -l "
 
 def headerLine (sched : Sched) (kv : Str × PyVal) : Str :=
-  match kv.2 with
-  | .none => headerPrefix sched ++ kv.1
-  | .bool true => headerPrefix sched ++ kv.1
-  | v => headerPrefix sched ++ kv.1 ++ ['='] ++ pyStr v
+  if isNone kv.2 || kv.2 == .bool true then headerPrefix sched ++ kv.1
+  else headerPrefix sched ++ kv.1 ++ ['='] ++ pyStr kv.2
+
+open Gen (PyErr)
+
+/-- number of threads, first pass: given, else the processes (no workers) or `round(num_procs / num_workers)` -/
+def threads1 (r : Raw) : Except PyErr PyVal :=
+  if isNone r.numThreads then
+    (if isNone r.numWorkers then .ok r.numProcs else Py.roundDiv r.numProcs r.numWorkers)
+  else .ok r.numThreads
+
+/-- `int(v)`, with 0 for a part of the time that is not given -/
+def timePart (v : PyVal) : Except PyErr PyVal := if isNone v then .ok (.int 0) else Py.int v
+
+/-- hours, minutes, seconds: from `time` (a number of hours, or `"h:m:s"`), else from the three parts, else 1:0:0 -/
+def timeHMS (r : Raw) : Except PyErr (PyVal × PyVal × PyVal) :=
+  if isNone r.hours && isNone r.minutes && isNone r.seconds then
+    (if isNone r.time then .ok (.int 1, .int 0, .int 0)
+     else if Py.isInt r.time || Py.isFloat r.time then .ok (r.time, .int 0, .int 0)
+     else match r.time with
+       | .str t => (match splitOn ':' t with
+         | [a, b, c] => .ok (.str a, .str b, .str c)
+         | _ => .error .valueError)
+       | _ => .ok (.none, .none, .none))
+  else if !isNone r.time then .error .valueError
+  else Py.bind (timePart r.hours) fun h => Py.bind (timePart r.minutes) fun m => Py.bind (timePart r.seconds) fun s =>
+    .ok (h, m, s)
+
+def setIf (kw : List (Str × PyVal)) (k : Str) (v : PyVal) : List (Str × PyVal) :=
+  if isNone v then kw else setKw kw k v
+
+/-- memory and extra header resources: (the header keyword arguments, the `gigabytes` field) -/
+def memKw (sched : Sched) (r : Raw) : Except PyErr (List (Str × PyVal) × PyVal) :=
+  match sched with
+  | .slurm =>
+    if !isNone r.gigabytes && !isNone r.mem then .error .valueError
+    else
+      let kw := setIf (setIf r.extra (chars! "nodes") r.numNodes) (chars! "cpus-per-task") r.numProcs
+      let mem := if !isNone r.gigabytes then r.gigabytes else r.mem
+      let kw := if isNone mem then kw else setKw kw (chars! "mem") (memSpelling mem)
+      let kw := if isNone r.memPerCpu then kw else setKw kw (chars! "mem-per-cpu") (memSpelling r.memPerCpu)
+      .ok (kw, r.gigabytes)
+  | _ =>
+    if !isNone r.gigabytes && !isNone r.mem then .error .valueError
+    else if isNone r.mem then .ok (r.extra, r.gigabytes)
+    else Py.bind (Py.int r.mem) fun gb => .ok (r.extra, gb)
+
+def outDir (r : Raw) : PyVal :=
+  if isNone r.outputDirectory then .str (Py.pathJoin [r.home, chars! "Scratch", chars! "output"]) else r.outputDirectory
+
+/-- the environment to activate: the one asked for; for `True` the running one unless the shell set-up already activates one -/
+def condaEnvOf (r : Raw) : PyVal :=
+  if r.condaEnv == .bool true then
+    (if Py.truthy r.condaDefault &&
+        (hasSub (chars! "conda activate") r.shellSetup || hasSub (chars! "mamba activate") r.shellSetup)
+     then .bool false else r.condaDefault)
+  else r.condaEnv
+
+def condaSetup (r : Raw) : Except PyErr Str :=
+  if Py.isStr (condaEnvOf r) then .ok (r.shellSetup ++ chars! "\nconda activate " ++ pyStr (condaEnvOf r))
+  else if condaEnvOf r == .bool false then .ok r.shellSetup
+  else .error .valueError
+
+def headerOptions (sched : Sched) (kw : List (Str × PyVal)) : Str := joinSep ['\n'] (kw.map (headerLine sched))
+
+/-- number of threads, second pass (only when still `None`, i.e. no processes given either) -/
+def threads2 (r : Raw) (nt : PyVal) : Except PyErr PyVal :=
+  if isNone nt then
+    (if r.mpi then .ok (.int 1)
+     else if isNone r.numWorkers then .ok r.numProcs
+     else Py.bind (Py.floorDiv r.numProcs r.numWorkers) fun q => Py.max2 (.int 1) q)
+  else .ok nt
 
 /-- everything `gen_cluster_script` does to its keyword arguments before it decides which ids to grow:
 the option record without `batch_ids`, `run_start`, `run_stop` -/
-def resolve (sched : Sched) (r : Raw) : Except String Opts := do
-  -- number of threads
-  let nt ← if isNone r.numThreads then
-      (if isNone r.numWorkers then pure r.numProcs
-       else match r.numProcs, r.numWorkers with
-         | .int p, .int w => if w = 0 then throw "zerodiv" else pure (PyVal.int (roundDiv p w))
-         | _, _ => throw "type")
-    else pure r.numThreads
-  -- time
-  let (h, m, s) ← if isNone r.hours && isNone r.minutes && isNone r.seconds then
-      (match r.time with
-       | .none => pure (PyVal.int 1, PyVal.int 0, PyVal.int 0)
-       | .int i => pure (.int i, .int 0, .int 0)
-       | .flt f => pure (.flt f, .int 0, .int 0)
-       | .bool b => pure (.bool b, .int 0, .int 0)
-       | .str t => match splitOn ':' t with
-         | [a, b, c] => pure (.str a, .str b, .str c)
-         | _ => throw "value"
-       | _ => pure (.none, .none, .none))
-    else
-      if !isNone r.time then throw "value" else do
-        let f := fun (v : PyVal) => if isNone v then pure (PyVal.int 0) else pyInt v
-        pure (← f r.hours, ← f r.minutes, ← f r.seconds)
-  -- memory / extra header options
-  let (kw, gb) ← match sched with
-    | .slurm => do
-      let kw := r.extra
-      let kw := if isNone r.numNodes then kw else setKw kw (chars! "nodes") r.numNodes
-      let kw := if isNone r.numProcs then kw else setKw kw (chars! "cpus-per-task") r.numProcs
-      let mem ← if !isNone r.gigabytes then (if !isNone r.mem then throw "value" else pure r.gigabytes) else pure r.mem
-      let kw := if isNone mem then kw else setKw kw (chars! "mem") (memSpelling mem)
-      let kw := if isNone r.memPerCpu then kw else setKw kw (chars! "mem-per-cpu") (memSpelling r.memPerCpu)
-      pure (kw, r.gigabytes)
-    | _ => do
-      if !isNone r.gigabytes && !isNone r.mem then throw "value"
-      let gb ← if isNone r.mem then pure r.gigabytes else pyInt r.mem
-      pure (r.extra, gb)
-  let outDir := match r.outputDirectory with
-    | .none => PyVal.str (r.home ++ chars! "/Scratch/output")
-    | v => v
-  -- conda activation
-  let ce : PyVal := match r.condaEnv with
-    | .bool true =>
-      (match r.condaDefault with
-       | some e => if !e.isEmpty && (hasSub (chars! "conda activate") r.shellSetup || hasSub (chars! "mamba activate") r.shellSetup)
-                   then .bool false else .str e
-       | none => .bool false)
-    | v => v
-  let shellSetup ← match ce with
-    | .str e => pure (r.shellSetup ++ chars! "\nconda activate " ++ e)
-    | .bool false => pure r.shellSetup
-    | _ => throw "value"
-  let headerOptions : Str := joinSep ['\n'] (kw.map (headerLine sched))
-  let nt := if isNone nt then
-      (if r.mpi then PyVal.int 1
-       else if isNone r.numWorkers then r.numProcs
-       else match r.numProcs, r.numWorkers with
-         | .int p, .int w => .int (max 1 (p / w))
-         | _, _ => .none)
-    else nt
-  pure [
-    (chars! "hours", h), (chars! "minutes", m), (chars! "seconds", s), (chars! "gigabytes", gb), (chars! "name", .str r.name),
+def resolve (sched : Sched) (r : Raw) : Except PyErr Opts :=
+  Py.bind (threads1 r) fun nt =>
+  Py.bind (timeHMS r) fun hms =>
+  Py.bind (memKw sched r) fun kwgb =>
+  Py.bind (condaSetup r) fun shellSetup =>
+  Py.bind (threads2 r nt) fun nt =>
+  .ok [
+    (chars! "hours", hms.1), (chars! "minutes", hms.2.1), (chars! "seconds", hms.2.2), (chars! "gigabytes", kwgb.2), (chars! "name", .str r.name),
     (chars! "parent_dir", .str r.parentDir), (chars! "num_procs", r.numProcs), (chars! "num_threads", nt),
     (chars! "num_nodes", r.numNodes), (chars! "num_workers", r.numWorkers), (chars! "launcher", .str r.launcher),
     (chars! "setup", .str r.setup), (chars! "shell_setup", .str shellSetup), (chars! "pe", .str (if r.mpi then chars! "mpi" else chars! "smp")),
-    (chars! "temp_gigabytes", r.tempGigabytes), (chars! "output_directory", outDir), (chars! "working_directory", .str r.parentDir),
-    (chars! "header_options", .str headerOptions), (chars! "debugging", r.debugging)]
+    (chars! "temp_gigabytes", r.tempGigabytes), (chars! "output_directory", outDir r), (chars! "working_directory", .str r.parentDir),
+    (chars! "header_options", .str (headerOptions sched kwgb.1)), (chars! "debugging", r.debugging)]
 
 /-- the keys `resolve` supplies -/
 def baseFields : List Str :=
@@ -478,6 +395,36 @@ def Script.python (s : Script) : String :=
 
 def Script.growArg (s : Script) : GrowArg := growArgOf s.template s.sched.var
 
+/-! ### the same text through the TRANSLATED body of `gen_cluster_script` (`Gen.gcsOpts`, `Gen.gcsTail`) -/
+
+/-- `Gen.gcsOpts` on an argument record: the `opts` mapping as the translated option handling computes it -/
+def genOpts (scheduler mode : Str) (r : Raw) : Except PyErr Opts :=
+  Gen.gcsOpts scheduler mode r.launcher r.setup r.shellSetup r.numProcs r.numThreads r.numNodes r.numWorkers r.mem
+    r.memPerCpu r.gigabytes r.time r.hours r.minutes r.seconds r.condaEnv r.tempGigabytes r.outputDirectory r.debugging
+    r.mpi r.extra r.home r.condaDefault r.name r.parentDir
+
+/-- `Gen.gcsTail` for a crop of `B` batches with results `done`: (unformatted script, completed `opts`) -/
+def genTail (scheduler mode : Str) (explicit : Option (List Nat)) (B : Nat) (done : List Nat) (base : Opts) :
+    Except PyErr (Str × Opts) :=
+  Gen.gcsTail scheduler mode explicit done.length B (missing B done) base
+
+/-- `len(opts["batch_ids"])` (0 where Python would raise) -/
+def lenBatchIds (o : Opts) : Int :=
+  match Py.lenOf (lookup o (chars! "batch_ids")) with
+  | .ok n => n
+  | .error _ => 0
+
+/-- the script text as the translated body computes it (`scheduler` as given by the caller, any case) -/
+def genText (scheduler mode : Str) (explicit : Option (List Nat)) (B : Nat) (done : List Nat) (r : Raw) :
+    Except PyErr (Option String) :=
+  Py.bind (genOpts scheduler mode r) fun base =>
+  Py.bind (genTail (Py.lower scheduler) mode explicit B done base) fun so =>
+  .ok ((render (parseTpl so.1) so.2).map fun t =>
+    let txt := String.ofList t
+    if Gen.scriptPbsRewrite (Py.lower scheduler == chars! "pbs") (lenBatchIds so.2) then
+      Gen.scriptPbsReplacements.foldl (fun acc pr => acc.replace (String.ofList pr.1) (String.ofList pr.2)) txt
+    else txt)
+
 /-- **abstract semantics, array mode**: the batch id grown by the task whose scheduler index is `t`
 (`none`: `t` is outside the array range, or the script is not an array script / its grow line is not understood) -/
 def taskBatch (s : Script) (t : Nat) : Option Nat :=
@@ -497,5 +444,14 @@ def Script.tasks (s : Script) : List Nat :=
   match s.mode with
   | .array => List.range' s.runStart.toNat (s.runStop + 1 - s.runStart).toNat
   | .single => []
+
+/-! ### `xyzpy-grow` (xyzpy_grow_cli.main), through its translated effect skeleton `Gen.cliSk` -/
+
+/-- the batches a run of `xyzpy-grow <name>` grows on a crop that is sown (`prepared`) or not, has `B` batches and
+results `done`, when no step fails on its own: those the `grow_missing` effect of the skeleton stands for (with the
+`num_workers` / `verbosity` of the command line), nothing when the skeleton never reaches it; and whether it raised -/
+def cliRun (prepared : Bool) (B : Nat) (done : List Nat) : List Nat × Bool :=
+  let r := Gen.cliSk (fun _ => false) false true prepared []
+  (if r.1.any (fun e => match e with | .growMissing _ _ => true | _ => false) then missing B done else [], r.2.isSome)
 
 end Scr
